@@ -45,7 +45,9 @@ func (e *Environment) changing(name string) {
 	if e.depth != 0 {
 		return
 	}
-	if old, ok := e.store[name]; ok && (Constant(name) || old.Type() == FUNC) {
+	old, ok := e.store[name]
+	// a new global also matters: `x = v` inside a function creates a local x until a global x exists.
+	if !ok || Constant(name) || old.Type() == FUNC {
 		e.generation++
 	}
 }
